@@ -7,7 +7,8 @@ For every node the driver builds a REAL exception object, measures - with json /
 the class constructors themselves, never with taskiq's serialization code - the capability flags the Coq model
 takes as input, then stores and loads a real TaskiqResult through JSON text, JSON dict and pickle and abstracts
 each loaded object back (class kind, name, argument forms, cause / context / suppress tree).
-Nothing here re-implements prepare_exception / exception_to_python."""
+Family "seq" (see run_seq): several store / load steps in ONE (forked) process with environment changes in between, the
+flags measured again at every step. Nothing here re-implements prepare_exception / exception_to_python."""
 import collections
 import datetime
 import decimal
@@ -141,32 +142,28 @@ LOCAL_OBJ = None
 UNWANTED = (Exception, BaseException, object)
 
 
-def setup(opts):
-    """generated module registered in sys.modules before both store and load (so its classes are importable)"""
-    global ZOO, LOCAL_OBJ
-    ZOO = types.ModuleType(ZOO_NAME)
-    ZOO.__dict__["enum"] = enum
-    sys.modules[ZOO_NAME] = ZOO
-    exec(compile(ZOO_SRC, "<excser_zoo>", "exec"), ZOO.__dict__)
-    Local, LocalSubVal, LocalSubTwoPos, LocalBase, LOCAL_OBJ, LocalMixin, LocalMixinArgs = ZOO.make_locals()
+def make_table(zoo):
+    """class kind -> class object, from one executed copy of the generated source (new class objects on every call)"""
     import builtins
+    t = {}
+    Local, LocalSubVal, LocalSubTwoPos, LocalBase, local_obj, LocalMixin, LocalMixinArgs = zoo.make_locals()
     for n in ("ValueError KeyError OSError FileNotFoundError KeyboardInterrupt SystemExit StopIteration GeneratorExit "
               "AssertionError ImportError ZeroDivisionError RuntimeError Exception BaseException UnicodeDecodeError "
               "ExceptionGroup LookupError").split():
-        CLASSES[n] = getattr(builtins, n)
+        t[n] = getattr(builtins, n)
     for n in ("ModLevel ModBase ModSubVal Rewrites KwOnly TwoPos ExtraPos SubRewrites SubTwoPos WithLock StrRaises "
               "ReduceBad FalsyLen FalsyBool EqHash EqNoHash EqTrue EqRaises SubEqVal DataExc DataHashExc").split():
-        CLASSES[n] = getattr(ZOO, n)
-    LocalEq, LocalData = ZOO.make_eq_locals()
-    CLASSES.update({
+        t[n] = getattr(zoo, n)
+    LocalEq, LocalData = zoo.make_eq_locals()
+    t.update({
         "LocalEq": LocalEq, "LocalData": LocalData,
-        "DynEq": type("DynEq", (Exception,), {"__module__": "nowhere.mod", "__eq__": ZOO._dyn_eq}),
-        "DynEqHere": type("DynEqHere", (KeyError,), {"__module__": ZOO_NAME, "__eq__": ZOO._dyn_eq,
+        "DynEq": type("DynEq", (Exception,), {"__module__": "nowhere.mod", "__eq__": zoo._dyn_eq}),
+        "DynEqHere": type("DynEqHere", (KeyError,), {"__module__": ZOO_NAME, "__eq__": zoo._dyn_eq,
                                                       "__hash__": lambda self: 3}),
-        "Nested": ZOO.Outer.Nested, "Deep": ZOO.Outer.Inner.Deep,
+        "Nested": zoo.Outer.Nested, "Deep": zoo.Outer.Inner.Deep,
         "Local": Local, "LocalSubVal": LocalSubVal, "LocalSubTwoPos": LocalSubTwoPos, "LocalBase": LocalBase,
-        "LocalMixin": LocalMixin, "LocalMixinArgs": LocalMixinArgs, "ModMixin": ZOO.ModMixin,
-        "DynMixin": type("DynMixin", (ZOO.Mixin, Exception), {"__module__": "nowhere.mod"}),
+        "LocalMixin": LocalMixin, "LocalMixinArgs": LocalMixinArgs, "ModMixin": zoo.ModMixin,
+        "DynMixin": type("DynMixin", (zoo.Mixin, Exception), {"__module__": "nowhere.mod"}),
         "Dyn": type("Dyn", (Exception,), {"__module__": "nowhere.mod"}),
         "DynHere": type("DynHere", (ValueError,), {"__module__": ZOO_NAME}),
         "DynK": type("DynK", (KeyError,), {"__module__": ZOO_NAME}),
@@ -179,6 +176,32 @@ def setup(opts):
         "ShadowExc": type("ModSubVal", (Exception,), {"__module__": ZOO_NAME}),
         "ShadowTwoPos": type("TwoPos", (Exception,), {"__module__": ZOO_NAME}),
     })
+    return t, local_obj
+
+
+def exec_zoo(mod):
+    mod.__dict__["enum"] = enum
+    exec(compile(ZOO_SRC, "<excser_zoo>", "exec"), mod.__dict__)
+    return mod
+
+
+def install_zoo(same_module=False):
+    """(re)create the generated module and the class table: a NEW module object registered under ZOO_NAME, or
+    (same_module, = importlib.reload) the source executed again in the dict of the existing module object.
+    Either way every generated class is a new class object afterwards."""
+    global ZOO, LOCAL_OBJ
+    if not (same_module and ZOO is not None):
+        ZOO = types.ModuleType(ZOO_NAME)
+        sys.modules[ZOO_NAME] = ZOO
+    exec_zoo(ZOO)
+    table, LOCAL_OBJ = make_table(ZOO)
+    CLASSES.clear()
+    CLASSES.update(table)
+
+
+def setup(opts):
+    """generated module registered in sys.modules before both store and load (so its classes are importable)"""
+    install_zoo()
 
 
 def _circ():
@@ -209,7 +232,7 @@ ARGS = {
     # rejected by Python's json -> text form
     "bytes": lambda: b"\xff", "set": lambda: {1, 2}, "object": lambda: object(), "complex": lambda: 1 + 2j,
     "decimal": lambda: decimal.Decimal("1.5"), "datetime": lambda: datetime.datetime(2020, 1, 2, 3, 4, 5),
-    "class": lambda: ZOO.ModLevel, "type": lambda: type, "excinst": lambda: ValueError("inner"),
+    "class": lambda: CLASSES["ModLevel"], "type": lambda: type, "excinst": lambda: ValueError("inner"),
     "frozenset": lambda: frozenset([1]), "range": lambda: range(3), "huge": lambda: 10**5000,
     "dictbytes": lambda: {"k": b"x"}, "circular": _circ, "tuplekey": lambda: {(1, 2): 3},
     # un-repr-able / un-str-able
@@ -509,8 +532,13 @@ LOAD = {
 }
 
 
-def run_case(case, opts):
-    specs = case["nodes"]
+NODE_KEYS = ("name", "qualname", "module", "has_module", "resolve", "accepts_text", "accepts_dict",
+             "recon_text", "recon_dict", "exc_rt_json", "exc_rt_pickle", "native", "native_same_class",
+             "mro", "wrap_rt_json", "wrap_rt_pickle", "own_ctor_ok", "own_recon", "importable", "truthy",
+             "eq_nodes", "eq_raises", "hashable")
+
+
+def build_graph(specs):
     excs = [build(s) for s in specs]
     links = []
     for e, s in zip(excs, specs):
@@ -520,6 +548,11 @@ def run_case(case, opts):
             e.__context__ = excs[s["context"]]
         e.__suppress_context__ = bool(s.get("suppress"))
         links.append((s.get("cause"), s.get("context")))
+    return excs, links
+
+
+def measure_graph(excs):
+    """capability flags of every node, measured in the environment (sys.modules, class objects) that holds NOW"""
     nodes = [measure_node(e) for e in excs]
     # value equality between DISTINCT exception objects of the graph and hashability, measured with the real == / hash()
     # before any round trip (facts for the evidence distribution only: neither the model nor the oracle reads them -
@@ -534,39 +567,231 @@ def run_case(case, opts):
                 elif v:
                     n["eq_nodes"].append(j)
         n["hashable"] = tryf(lambda: hash(e))[0]
-    out = {"nodes": [], "enc": {}}
+    return nodes
+
+
+def export_nodes(nodes, specs):
+    out = []
     for n, s in zip(nodes, specs):
-        d = {k: n[k] for k in ("name", "qualname", "module", "has_module", "resolve", "accepts_text", "accepts_dict",
-                               "recon_text", "recon_dict", "exc_rt_json", "exc_rt_pickle", "native", "native_same_class",
-                               "mro", "wrap_rt_json", "wrap_rt_pickle", "own_ctor_ok", "own_recon", "importable", "truthy",
-                               "eq_nodes", "eq_raises", "hashable")}
+        d = {k: n[k] for k in NODE_KEYS}
         d["args"] = [{k: v for k, v in m.items() if k not in ("repr_text", "str_text", "loaded_text", "loaded_dict")}
                      for m in n["ms"]]
         d["cause"], d["context"], d["suppress"] = s.get("cause"), s.get("context"), bool(s.get("suppress"))
-        out["nodes"].append(d)
-    for enc in ("text", "dict", "pickle"):
-        r = TaskiqResult(is_err=True, return_value=None, execution_time=0.0, error=excs[0])
-        if r.error is not excs[0]:
-            out["enc"][enc] = dict(o="construct_lost", detail=type(r.error).__name__)
-            continue
-        try:
-            stored = STORE[enc](r)
-        except BaseException as x:  # noqa: B036 - the statement says "never fails"
-            out["enc"][enc] = dict(o="store_fail", exc=type(x).__name__, msg=str(x)[:300])
-            continue
-        try:
-            back = LOAD[enc](stored)
-        except BaseException as x:  # noqa: B036
-            out["enc"][enc] = dict(o="security" if type(x) is TX.SecurityError else "load_fail",
-                                   exc=type(x).__name__, msg=str(x)[:300])
-            continue
-        err = back.error
-        if not isinstance(err, BaseException):
-            out["enc"][enc] = dict(o="notexc", type=type(err).__name__)
-            continue
-        out["enc"][enc] = dict(o="loaded", t=abstract(err, 0, nodes, links, enc))
+        out.append(d)
+    return out
+
+
+def store(enc, excs):
+    """("stored", payload) or the failure outcome"""
+    r = TaskiqResult(is_err=True, return_value=None, execution_time=0.0, error=excs[0])
+    if r.error is not excs[0]:
+        return dict(o="construct_lost", detail=type(r.error).__name__)
+    try:
+        return ("stored", STORE[enc](r))
+    except BaseException as x:  # noqa: B036 - the statement says "never fails"
+        return dict(o="store_fail", exc=type(x).__name__, msg=str(x)[:300])
+
+
+def load(enc, stored, nodes, links):
+    if isinstance(stored, dict):
+        return stored                     # the store already failed
+    try:
+        back = LOAD[enc](stored[1])
+    except BaseException as x:  # noqa: B036
+        return dict(o="security" if type(x) is TX.SecurityError else "load_fail", exc=type(x).__name__, msg=str(x)[:300])
+    err = back.error
+    if not isinstance(err, BaseException):
+        return dict(o="notexc", type=type(err).__name__)
+    return dict(o="loaded", t=abstract(err, 0, nodes, links, enc))
+
+
+def check_links(excs, links):
     # the links of the originals must be untouched by the round trips (the driver's own sanity)
     for e, (ci, xi) in zip(excs, links):
         assert e.__cause__ is (excs[ci] if ci is not None else None)
         assert e.__context__ is (excs[xi] if xi is not None else None)
+
+
+def run_case(case, opts):
+    if case.get("family") == "seq":
+        return forked(run_seq, case)
+    specs = case["nodes"]
+    excs, links = build_graph(specs)
+    nodes = measure_graph(excs)
+    out = {"nodes": export_nodes(nodes, specs), "enc": {}}
+    for enc in ("text", "dict", "pickle"):
+        out["enc"][enc] = load(enc, store(enc, excs), nodes, links)
+    check_links(excs, links)
     return out
+
+
+# --------------------------------------------------------------------------- family "seq": one process, several loads
+# A case is a SEQUENCE of steps run in ONE process:
+#   {"family": "seq", "steps": [{"ops": [<environment change>, ...], "mode": "new" | "rebuild" | "reuse", "nodes": [...]}, ...]}
+# Before each step the environment of the process is changed (ops), then
+#   mode "new"     - the step's own graph is built from the classes that exist NOW and stored (JSON text, JSON dict),
+#   mode "rebuild" - the previous graph's descriptors are built again from the classes that exist NOW and stored,
+#   mode "reuse"   - nothing is stored: the payloads (and original exception objects) of the previous step are kept,
+# the capability flags of every node are measured in the environment that holds AT THIS STEP and the JSON payloads are
+# loaded (pickle: a fresh store + load at this step - pickle resolves classes by itself on both sides). Every step yields
+# an observation of the same shape as a plain case. Environment changes ("the module gets imported later", "the module is
+# reloaded", "a class factory re-creates a class under the same name") are done with plain Python on sys.modules / the
+# generated module / the class table of this driver - never through taskiq.
+NOWHERE = "nowhere.mod"
+
+
+def container_of(cls):
+    """(object holding the class under its name, name) along the qualified name inside the generated module, or None"""
+    q = getattr(cls, "__qualname__", cls.__name__)
+    if cls.__module__ != ZOO_NAME or "<locals>" in q:
+        return None
+    o = ZOO
+    parts = q.split(".")
+    for p in parts[:-1]:
+        o = getattr(o, p, None)
+        if o is None:
+            return None
+    return o, parts[-1]
+
+
+def publish_nowhere():
+    pkg = types.ModuleType("nowhere")
+    pkg.__path__ = []
+    m = types.ModuleType(NOWHERE)
+    for c in CLASSES.values():
+        if getattr(c, "__module__", None) == NOWHERE:
+            setattr(m, c.__name__, c)
+    pkg.mod = m
+    sys.modules["nowhere"], sys.modules[NOWHERE] = pkg, m
+
+
+def apply_op(op):
+    k = op["op"]
+    if k == "unregister":                      # the module is not (yet / any more) imported in this process
+        if op["mod"] == "zoo":
+            sys.modules.pop(ZOO_NAME, None)
+        else:
+            sys.modules.pop(NOWHERE, None)
+            sys.modules.pop("nowhere", None)
+    elif k == "register":                      # lazy import: the module object (with its current classes) appears
+        if op["mod"] == "zoo":
+            sys.modules[ZOO_NAME] = ZOO
+        else:
+            publish_nowhere()
+    elif k in ("delattr", "setattr"):          # the class is removed from / (re)published under its qualified name
+        cls = CLASSES[op["cls"]]
+        if cls.__module__ == NOWHERE:
+            m = sys.modules.get(NOWHERE)
+            if m is not None:
+                if k == "setattr":
+                    setattr(m, cls.__name__, cls)
+                elif hasattr(m, cls.__name__):
+                    delattr(m, cls.__name__)
+            return
+        at = container_of(cls)
+        if at is None:
+            return
+        if k == "setattr":
+            setattr(at[0], at[1], cls)
+        elif at[1] in vars(at[0]):
+            delattr(at[0], at[1])
+    elif k in ("reload", "reimport"):          # every generated class becomes a new class object under the same name
+        registered = ZOO_NAME in sys.modules
+        install_zoo(same_module=(k == "reload"))
+        if k == "reload" and not registered:
+            sys.modules.pop(ZOO_NAME, None)
+        if NOWHERE in sys.modules:
+            publish_nowhere()
+    elif k == "replace":                       # class factory: ONE class re-created under the same module / qualified name
+        old = CLASSES[op["cls"]]
+        scratch = exec_zoo(types.ModuleType(ZOO_NAME))
+        new = make_table(scratch)[0][op["cls"]]
+        if new is old:                          # builtin / library class: nothing to re-create
+            return
+        CLASSES[op["cls"]] = new
+        if old.__module__ == NOWHERE:
+            m = sys.modules.get(NOWHERE)
+            if m is not None and getattr(m, old.__name__, None) is old:
+                setattr(m, old.__name__, new)
+        else:
+            at = container_of(old)
+            if at is not None and vars(at[0]).get(at[1]) is old:
+                setattr(at[0], at[1], new)
+    else:
+        raise ValueError("unknown op %r" % (op,))
+
+
+def canon_payload(p):
+    if isinstance(p, dict):
+        return "failed:" + json.dumps(p, sort_keys=True, default=str)
+    return p[1] if isinstance(p[1], str) else json.dumps(p[1], sort_keys=True, default=repr)
+
+
+def run_seq(case):
+    out = {"steps": []}
+    excs = links = specs = payloads = None
+    try:
+        for st in case["steps"]:
+            for op in st.get("ops", []):
+                apply_op(op)
+            mode = st.get("mode", "new")
+            if mode == "new" or specs is None:
+                specs = st["nodes"]
+            fresh_graph = mode != "reuse" or excs is None
+            if fresh_graph:
+                excs, links = build_graph(specs)
+            # ONE call site for every JSON store of the sequence (the "<Unrepresentable ..>" text form of an un-printable
+            # argument quotes the call stack)
+            stored_now = {enc: store(enc, excs) for enc in ("text", "dict")}
+            if fresh_graph:
+                payloads, same = stored_now, None
+            else:
+                # evidence for the assumption "what a JSON store writes does not depend on the environment": the same
+                # objects stored again NOW give the payload that was stored before the environment changed
+                same = all(canon_payload(stored_now[enc]) == canon_payload(payloads[enc]) for enc in ("text", "dict"))
+            nodes = measure_graph(excs)
+            o = {"nodes": export_nodes(nodes, specs), "enc": {}, "specs": specs,
+                 "env": dict(zoo=ZOO_NAME in sys.modules, nowhere=NOWHERE in sys.modules, payload_same_as_fresh_store=same)}
+            for enc in ("text", "dict"):
+                o["enc"][enc] = load(enc, payloads[enc], nodes, links)
+            o["enc"]["pickle"] = load("pickle", store("pickle", excs), nodes, links)
+            check_links(excs, links)
+            out["steps"].append(o)
+    finally:
+        # back to the environment every other case expects (matters only when the case did not run in a forked child)
+        sys.modules.pop(NOWHERE, None)
+        sys.modules.pop("nowhere", None)
+        install_zoo()
+    return out
+
+
+def forked(f, case):
+    """run f(case) in a forked child: the sequence starts from the pristine process state whatever ran before it in this
+    driver process (so a group never depends on sharding and replays alone exactly as it ran)"""
+    import os
+    import traceback
+    if not hasattr(os, "fork"):
+        return f(case)
+    rd, wr = os.pipe()
+    pid = os.fork()
+    if pid == 0:
+        code = 0
+        try:
+            os.close(rd)
+            try:
+                data = json.dumps(f(case), default=str)
+            except BaseException:  # noqa: B036
+                data = json.dumps({"_crash": traceback.format_exc()[-2000:]})
+            with os.fdopen(wr, "w") as fh:
+                fh.write(data)
+        except BaseException:  # noqa: B036
+            code = 1
+        finally:
+            os._exit(code)
+    os.close(wr)
+    with os.fdopen(rd) as fh:
+        data = fh.read()
+    os.waitpid(pid, 0)
+    if not data:
+        return {"_crash": "forked sequence child produced no output"}
+    return json.loads(data)
